@@ -1,9 +1,60 @@
-import Fpdec.Lemmas.Dom
+import Fpdec.Lemmas.Unary
 import Fpdec.Props.C15_Sites
 
-/-! # C15 — property theorems (under construction: see DESIGN.md section 6) -/
+/-!
+# C15 — floor, ceil, trunc, fract, abs, neg, magnitude and sign predicates are exact
+
+* `floor_spec`, `ceil_spec`, `trunc_spec`, `fract_spec`, `neg_spec`, `abs_spec`: the unary operations return the exact values
+  (`Spec.floor` …) for every Decimal of the domain and every profile; `value_properties`: those specs satisfy the statement's
+  inequalities — `floor(d) ≤ d < floor(d)+1`, `ceil(d)-1 < d ≤ ceil(d)`, `trunc` towards zero, `trunc + fract = d` with `fract`
+  carrying d's sign and scale.
+* `magnitude_spec`: `magnitude()` is `⌊log10 |d|⌋` (position of the most significant digit) and `0` for every zero value; it rests on
+  `i128_magnitude_spec`: the branch-free log10 bit trick with the four magic constants (read from the source) is `⌊log10⌋` for EVERY
+  128-bit value — `lessThan5` by kernel evaluation of the complete table below 100000, the reductions by arithmetic.
+* `predicates_spec`: `eq_zero`, `eq_one`, `is_negative`, `is_positive` reflect the value irrespective of the representation.
+num-traits: `Zero/One/Signed/Num` for `Decimal` are one-line forwarders to these functions (`is_zero = eq_zero`, `abs`, `signum =
+from(coeff.signum())`, `abs_sub = if self <= other {0} else {self - other}`, `from_str_radix` = `from_str` for radix 10); they are
+exercised by the correspondence run with the feature enabled against the same model functions, not separately modelled.
+-/
 
 namespace Fpdec.Props.C15
 open Fpdec Fpdec.Model
+
+theorem floor_spec (prof : Profile) (d : Dec) (hd : Dom d) :
+    floor prof d = .ok ⟨(Spec.floor d.coeff d.nfrac).1, 0⟩ := Fpdec.floor_spec prof d hd
+theorem ceil_spec (prof : Profile) (d : Dec) (hd : Dom d) :
+    ceil prof d = .ok ⟨(Spec.ceil d.coeff d.nfrac).1, 0⟩ := Fpdec.ceil_spec prof d hd
+theorem trunc_spec (d : Dec) (hd : Dom d) : trunc d = .ok ⟨(Spec.trunc d.coeff d.nfrac).1, 0⟩ := Fpdec.trunc_spec d hd
+theorem fract_spec (d : Dec) (hd : Dom d) :
+    fract d = .ok ⟨(Spec.fract d.coeff d.nfrac).1, (Spec.fract d.coeff d.nfrac).2⟩ := Fpdec.fract_spec d hd
+theorem neg_spec (prof : Profile) (d : Dec) (hd : Dom d) : neg prof d = .ok ⟨-d.coeff, d.nfrac⟩ := Fpdec.neg_spec prof d hd
+theorem abs_spec (prof : Profile) (d : Dec) (hd : Dom d) : abs prof d = .ok ⟨d.coeff.natAbs, d.nfrac⟩ :=
+  Fpdec.abs_spec prof d hd
+
+theorem value_properties (a : Int) (p : Nat) :
+    (Spec.floor a p).1 * (10 : Int) ^ p ≤ a ∧ a < ((Spec.floor a p).1 + 1) * (10 : Int) ^ p ∧
+    ((Spec.ceil a p).1 - 1) * (10 : Int) ^ p < a ∧ a ≤ (Spec.ceil a p).1 * (10 : Int) ^ p ∧
+    (Spec.trunc a p).1 * (10 : Int) ^ p + a.tmod ((10 : Int) ^ p) = a ∧
+    ((Spec.trunc a p).1.natAbs * 10 ^ p ≤ a.natAbs) ∧
+    (a.tmod ((10 : Int) ^ p) = 0 ∨ (0 < a.tmod ((10 : Int) ^ p) ∧ 0 < a) ∨ (a.tmod ((10 : Int) ^ p) < 0 ∧ a < 0)) :=
+  floor_ceil_trunc_props a p
+
+theorem i128_magnitude_spec (i : Int) (hi : I128_MIN ≤ i ∧ i ≤ I128_MAX) :
+    i128Magnitude i = if i = 0 then 0 else Spec.ilog10 64 i.natAbs := i128Magnitude_spec i hi
+
+theorem ilog10_is_floor_log10 (n : Nat) (h0 : 0 < n) (h : n < 10 ^ 39) :
+    10 ^ (Spec.ilog10 64 n) ≤ n ∧ n < 10 ^ (Spec.ilog10 64 n + 1) := ilog10_spec n h0 h
+
+theorem magnitude_spec (prof : Profile) (d : Dec) (hd : Dom d) :
+    magnitude prof d = .ok (Spec.magnitude d.coeff d.nfrac) := Fpdec.magnitude_spec prof d hd
+
+theorem predicates_spec (d : Dec) (hd : Dom d) :
+    eqZero d = decide (d.coeff = 0) ∧ eqOne d = .ok (decide (d.coeff = (10 : Int) ^ d.nfrac)) ∧
+    isNegative d = decide (d.coeff < 0) ∧ isPositive d = decide (d.coeff > 0) := Fpdec.predicates_spec d hd
+
+/-! ### non-vacuity -/
+example : magnitude Profile.dev ⟨0, 3⟩ = .ok 0 ∧ magnitude Profile.dev ⟨123, 5⟩ = .ok (-3) := by decide
+example : floor Profile.dev ⟨-25, 1⟩ = .ok ⟨-3, 0⟩ ∧ ceil Profile.dev ⟨-25, 1⟩ = .ok ⟨-2, 0⟩ ∧ ceil Profile.dev ⟨0, 2⟩ = .ok ⟨0, 0⟩ := by
+  decide
 
 end Fpdec.Props.C15
